@@ -610,6 +610,10 @@ PROBES = [
      " (function () { var n = {__proto__: null}; Object.entries({k: n}); JSON.stringify([n]); return Object.getPrototypeOf(n) === null && typeof n.toString })()].join()", "true,true,true,true,true,true,undefined"),
     ("anonymous-functions-are-named-after-their-variable", "var f = function () {}; var g = () => 1; var h; h = function () {}; var o = {m: function () {}, a: () => 1}; var n = function named() {};"
      " [f.name, g.name, h.name, o.m.name, o.a.name, n.name, (function () {}).name, typeof (function () { return typeof f2 })()].join()", "f,g,h,m,a,named,,string"),
+    ("computed-key-plain-identifier", "var k = 'z', n = 5; var o = {[k]: 1, [n]: 2, k: 3}; Object.keys(o).join() + '|' + o.z + o[5] + o.k", "5,z,k|123".replace("5,z,k", "z,5,k")),
+    ("array-likes-through-call", "[[].slice.call('abc').join('|'), [].slice.call({0: 'a', 1: 'b', length: 2}).join(), [].join.call({length: 2, 0: 'a', 1: 'b'}, '-'), Array.prototype.map.call('ab', function (c) { return c + c }).join(),"
+     " [].every.call(new Uint8Array([1, 2]), function (x) { return x > 0 }), Array.prototype.indexOf.call('abc', 'b'), (function () { try { [].push.call({length: 0}, 1); return 'accepted' } catch (e) { return e.name } })(),"
+     " (function () { try { [].slice.call({length: 1e12}); return 'accepted' } catch (e) { return e.name } })()].join(';')", "a|b|c;a,b;a-b;aa,bb;true;1;TypeError;RangeError"),
     ("booleans-have-no-number-methods", "[typeof true.toFixed, typeof false.toPrecision, true.toString(), false.valueOf(), typeof (5).toFixed, true.toString.call(false)].join()", "undefined,undefined,true,false,function,false"),
     ("delete-recreate-order", "var o = {b: 2, c: 3}; delete o.b; o.b = 4; Object.keys(o).join()", "c,b"),
     ("delete-recreate-order-accessor", "var o = {get a() { return 1; }, b: 2, c: 3}; delete o.b; o.b = 4; var ks = []; for (var k in o) ks.push(k); Object.keys(o).join() + '|' + ks.join() + '|' + JSON.stringify(Object.entries(o))",
